@@ -350,7 +350,7 @@ fn any_mode() -> transmission::Mode {
 }
 
 // ---- (b) on_transmit_complete ---------------------------------------------------------------------------------------
-//@ harness props=C08 tier=thorough level=full timeout=600
+//@ harness props=C08 tier=quick level=full timeout=600
 //@ fn AckManager::on_transmit_complete
 //@ fn AckTransmissionState::on_transmit
 #[kani::proof]
